@@ -124,7 +124,11 @@ def variants_of(cols, rng, order_preserving):
     extra["zz_str"] = [f"s{j % 5}" for j in range(n)]
     extra["zz_null"] = [None] * n
     extra["zz_num"] = [float(j) for j in range(n)]
-    cols_first = {"zz_num": extra["zz_num"], **{c: extra[c] for c in reversed(list(cols))}, "zz_str": extra["zz_str"]}
+    # unrelated columns that carry the names of the library's own intermediate / output columns
+    for nm in ("_group_mean__revenue", "_demean__revenue", "_var__revenue", "_count", "_mean__orders"):
+        extra[nm] = [float((7 * j) % 13) for j in range(n)]
+    cols_first = {"zz_num": extra["zz_num"], **{c: extra[c] for c in reversed(list(cols))}, "zz_str": extra["zz_str"],
+                  **{k_: v for k_, v in extra.items() if k_.startswith("_")}}
     pdf = backends.make_inputs(cols_first, ("pandas",))["pandas"]
     # a pandas `object` column mixing ints, strings, floats and None: it has no Arrow representation, and no metric
     # reads it — it must never be converted
